@@ -8,15 +8,11 @@ open Ctrmml Ctrmml.Mds Ctrmml.WFold Ctrmml.WTrace Ctrmml.SongSem Ctrmml.SongSpli
 
 theorem simpleEv_of_B {e : Event} (h : simpleEvB e = true) : SimpleEv e := by
   unfold simpleEvB at h
-  simp only [Bool.and_eq_true, Bool.or_eq_true, bne_iff_ne, beq_iff_eq, decide_eq_true_eq, ne_eq] at h
-  obtain ⟨h4, h5⟩ := h
-  refine ⟨fun t => ?_, fun t => ?_⟩
-  · rcases h4 with h | h
-    · exact absurd t h
-    · exact h
-  · rcases h5 with h | h
-    · exact absurd t h
-    · exact h
+  simp only [Bool.and_eq_true, Bool.or_eq_true, bne_iff_ne, decide_eq_true_eq, ne_eq] at h
+  intro t
+  rcases h with h | h
+  · exact absurd t h
+  · exact h
 
 theorem timed_of_B {e : Event} (h : timedB e = true) : Timed e := by
   unfold timedB at h
